@@ -292,9 +292,11 @@ def gen_template(rng):
         endkind = rng.choice(["none", "none", "none", "full", "full", "partial"])
         end = ""
         if endkind == "full":
-            ef = ["year", "month", "day"] + (tod if "hour" in tod or not tod else ["hour"] + tod)
-            if unit == "day":
-                ef = ["year", "month", "day"]
+            # the end inherits every field it does not name from the start: name all finer ones
+            alltod = tod if ("hour" in tod or not tod) else ["hour"] + tod
+            if not alltod and "hour" in dfields:
+                alltod = ["hour"]
+            ef = ["year", "month", "day"] + alltod
             end = "-" + "".join("{end_" + f + "}" for f in ef)
         elif endkind == "partial" and unit in ("minute", "second"):
             ef = ["hour", "minute"] + (["second"] if unit == "second" else [])
@@ -402,10 +404,11 @@ def gen_population(rng, tpl, honour=True, max_files=40):
         partial = "year" not in ef
     files = []
     fid = 0
+    y2 = any(t[0] == "f" and t[1].endswith("year2") for toks in tpl.dir_tokens + [tpl.name_tokens] for t in toks)
     for i in range(n):
         jitter = rng.choice([0, 0, 1, -1, 7]) * UNIT_US[unit]
         t0 = trunc_unit(t + dt.timedelta(microseconds=jitter), unit)
-        if t0.year < 2 or t0.year > 9997:
+        if t0.year < 2 or t0.year > 9997 or (y2 and not (1965 <= t0.year <= 2063)):
             t = t + step * rng.choice([0, 1, 1, 1, 2, 3])
             continue
         if ef:
